@@ -3,8 +3,8 @@
 //@ assume: positions < 2^32 - 1 (`as u32` narrowing) and every partial shift sum fits in u64 -- stated as preconditions (`fits`), true for any MMR with < 2^32 nodes since pruned subtrees are disjoint
 //@ assume: decided here: the prune-list representation invariant (caches = prefix sums of per-root contributions in position order, one entry per root) and what the shift lookups return; file rewriting during compaction, reopen and the chain-level statement are not decided (DESIGN 6 C08)
 //@ assume: 64-bit target
-//@ assumed_items: 12
-//@ fns: PruneList::get_shift, PruneList::get_leaf_shift, PruneList::get_total_shift, PruneList::get_total_leaf_shift, PruneList::calculate_next_shift, PruneList::calculate_next_leaf_shift, PruneList::append_single, PruneList::cleanup_subtree, PruneList::is_pruned_root, PruneList::is_pruned
+//@ assumed_items: 13
+//@ fns: PruneList::build_shift_cache, PruneList::build_leaf_shift_cache, PruneList::init_caches, PruneList::get_shift, PruneList::get_leaf_shift, PruneList::get_total_shift, PruneList::get_total_leaf_shift, PruneList::calculate_next_shift, PruneList::calculate_next_leaf_shift, PruneList::append_single, PruneList::cleanup_subtree, PruneList::is_pruned_root, PruneList::is_pruned
 //@ import: use vstd::arithmetic::power2::*;
 //@ import: use vstd::bits::*;
 global size_of usize == 8;
@@ -47,6 +47,11 @@ impl Bitmap {
     pub fn select(&self, idx: u32) -> (r: Option<u32>)
         ensures idx < self.seq().len() ==> r == Some(self.seq()[idx as int] as u32),
                 idx >= self.seq().len() ==> r.is_none()
+    { unimplemented!() }
+    /// iteration over the bitmap (`for x in bitmap.iter()`): the elements in increasing order
+    #[verifier::external_body]
+    pub fn to_vec(&self) -> (r: Vec<u32>)
+        ensures r@.len() == self.seq().len(), forall|i: int| 0 <= i < r@.len() ==> #[trigger] r@[i] as int == self.seq()[i]
     { unimplemented!() }
     #[verifier::external_body]
     pub fn add(&mut self, x: u32)
@@ -169,6 +174,26 @@ proof fn lemma_shl_bound(h: u64)
     lemma_u64_shl_is_mul(1, h);
 }
 
+/// the rank of the i-th element minus one is i (elements before it), for a strictly increasing sequence
+proof fn lemma_rank_before(s: Seq<int>, i: int)
+    requires increasing(s), 0 <= i < s.len()
+    ensures rank_spec(s, s[i] - 1) == i, rank_spec(s, s[i]) == i + 1
+{
+    lemma_rank_take(s, s[i] - 1);
+    lemma_rank_take(s, s[i]);
+    let r0 = rank_spec(s, s[i] - 1) as int;
+    if r0 > i { assert(s[i] <= s[i] - 1); }
+    if r0 < i { assert(s[r0] > s[i] - 1); assert(s[r0] < s[i]); }
+    let r1 = rank_spec(s, s[i]) as int;
+    if r1 > i + 1 { assert(s[i + 1] <= s[i]); assert(s[i] < s[i + 1]); }
+    if r1 < i + 1 { assert(s[r1] > s[i]); if r1 < i { assert(s[r1] < s[i]); } }
+}
+proof fn lemma_sums_monotone(s: Seq<int>, a: int, b: int)
+    requires 0 <= a <= b
+    ensures shift_sum(s, a) <= shift_sum(s, b), leaf_sum(s, a) <= leaf_sum(s, b)
+    decreases b - a
+{ if a < b { lemma_sums_monotone(s, a, b - 1); } }
+
 impl PruneList {
     /// the caches are valid prefix sums for as many roots as they cover
     pub open spec fn prefix_ok(&self) -> bool {
@@ -252,6 +277,71 @@ impl PruneList {
 //@+    r as nat == leaf_sum(self.bitmap.seq(), self.bitmap.seq().len() as int),
 //@   at_start:
 //@+    proof { if self.bitmap.seq().len() > 0 { lemma_rank_all(self.bitmap.seq()); } else { assert(rank_spec(self.bitmap.seq(), 1) == 0); } }
+//@ end
+
+//@ extract store/src/prune_list.rs :: impl PruneList::build_shift_cache
+//@   rewrite `for pos1 in self.bitmap.iter() {` => `let bv = self.bitmap.to_vec(); for pos1x in it: bv.iter() { let pos1 = *pos1x;`
+//@   requires:
+//@+    old(self).well_formed(), old(self).bitmap.seq().len() < 0x1_0000_0000,
+//@+    shift_sum(old(self).bitmap.seq(), old(self).bitmap.seq().len() as int) <= u64::MAX,
+//@   ensures:
+//@+    // rebuilding the cache from the bitmap (done on every reopen) gives the SAME representation invariant the incremental path maintains
+//@+    final(self).well_formed(), final(self).bitmap == old(self).bitmap, final(self).leaf_shift_cache == old(self).leaf_shift_cache,
+//@   at_start:
+//@+    proof { assert forall|h: u64| h <= 63 implies (1u64 << h) as nat == pow2(h as nat) && 1 <= #[trigger] (1u64 << h) <= 0x8000_0000_0000_0000u64 by { lemma_shl_bound(h); } }
+//@   loop 1:
+//@+    invariant
+//@+        self.bitmap == old(self).bitmap, self.leaf_shift_cache == old(self).leaf_shift_cache, self.prefix_ok(),
+//@+        self.leaf_shift_cache@.len() == self.bitmap.seq().len(),
+//@+        bv@.len() == self.bitmap.seq().len(), forall|i: int| 0 <= i < bv@.len() ==> #[trigger] bv@[i] as int == self.bitmap.seq()[i],
+//@+        self.shift_cache@.len() == it.index@,
+//@+        self.bitmap.seq().len() < 0x1_0000_0000, shift_sum(self.bitmap.seq(), self.bitmap.seq().len() as int) <= u64::MAX,
+//@+        forall|h: u64| h <= 63 ==> (1u64 << h) as nat == pow2(h as nat) && 1 <= #[trigger] (1u64 << h) <= 0x8000_0000_0000_0000u64,
+//@   after `let pos1 = *pos1x;`:
+//@+    proof {
+//@+        let sq = self.bitmap.seq(); let i = it.index@ as int;
+//@+        assert(pos1 as int == sq[i]);
+//@+        lemma_rank_before(sq, i);
+//@+        lemma_sums_monotone(sq, i + 1, sq.len() as int);
+//@+        lemma_sums_monotone(sq, i, i + 1);
+//@+        assert(sq.contains(sq[i]));
+//@+    }
+//@ end
+
+//@ extract store/src/prune_list.rs :: impl PruneList::build_leaf_shift_cache
+//@   rewrite `for pos1 in self.bitmap.iter() {` => `let bv = self.bitmap.to_vec(); for pos1x in it: bv.iter() { let pos1 = *pos1x;` x?
+//@   requires:
+//@+    old(self).well_formed(), old(self).bitmap.seq().len() < 0x1_0000_0000,
+//@+    leaf_sum(old(self).bitmap.seq(), old(self).bitmap.seq().len() as int) <= u64::MAX,
+//@   ensures:
+//@+    final(self).well_formed(), final(self).bitmap == old(self).bitmap, final(self).shift_cache == old(self).shift_cache,
+//@   at_start:
+//@+    proof { assert forall|h: u64| h <= 63 implies (1u64 << h) as nat == pow2(h as nat) && 1 <= #[trigger] (1u64 << h) <= 0x8000_0000_0000_0000u64 by { lemma_shl_bound(h); } }
+//@   loop 1?:
+//@+    invariant
+//@+        self.bitmap == old(self).bitmap, self.shift_cache == old(self).shift_cache, self.prefix_ok(),
+//@+        self.shift_cache@.len() == self.bitmap.seq().len(),
+//@+        bv@.len() == self.bitmap.seq().len(), forall|i: int| 0 <= i < bv@.len() ==> #[trigger] bv@[i] as int == self.bitmap.seq()[i],
+//@+        self.leaf_shift_cache@.len() == it.index@,
+//@+        self.bitmap.seq().len() < 0x1_0000_0000, leaf_sum(self.bitmap.seq(), self.bitmap.seq().len() as int) <= u64::MAX,
+//@+        forall|h: u64| h <= 63 ==> (1u64 << h) as nat == pow2(h as nat) && 1 <= #[trigger] (1u64 << h) <= 0x8000_0000_0000_0000u64,
+//@   after? `let pos1 = *pos1x;`:
+//@+    proof {
+//@+        let sq = self.bitmap.seq(); let i = it.index@ as int;
+//@+        assert(pos1 as int == sq[i]);
+//@+        lemma_rank_before(sq, i);
+//@+        lemma_sums_monotone(sq, i + 1, sq.len() as int);
+//@+        lemma_sums_monotone(sq, i, i + 1);
+//@+        assert(sq.contains(sq[i]));
+//@+    }
+//@ end
+
+//@ extract store/src/prune_list.rs :: impl PruneList::init_caches
+//@   requires:
+//@+    old(self).well_formed(), old(self).bitmap.seq().len() < 0x1_0000_0000,
+//@+    shift_sum(old(self).bitmap.seq(), old(self).bitmap.seq().len() as int) <= u64::MAX, leaf_sum(old(self).bitmap.seq(), old(self).bitmap.seq().len() as int) <= u64::MAX,
+//@   ensures:
+//@+    final(self).well_formed(), final(self).bitmap == old(self).bitmap,
 //@ end
 
 //@ extract store/src/prune_list.rs :: impl PruneList::append_single
